@@ -195,6 +195,12 @@ EnvKeyShapes == {"emptyMapKey", "doubleUnderscore", "lowercaseMapKey", "mixedCas
 \* environment variables whose name continues after a complete parameter name
 EnvSuffixes == {"_X", "_0", "_0_X", "__"}
 
+\* history: Load is a function of the file and the environment, whatever the process has loaded before.
+\* Every input class A is submitted in ONE process in this order ("A" the input, "OK" a valid configuration):
+\* twice in a row, then after a valid load. Each step is judged by the per-load formula, and the steps of the
+\* same input must get the same verdict (TraceConfValidate!HistoryIndependent).
+HistoryPattern == <<"A", "A", "OK", "A">>
+
 \* ------------------------------------------------------------------ specification
 Init == c \in Universe
 Next == UNCHANGED vars
@@ -220,6 +226,7 @@ EmitShapes ==
         /\ \A fk \in FieldKinds, v \in EnvScalarVals : Emit("SHAPE", [class |-> "envValue", kind |-> fk, val |-> v])
         /\ \A e \in EnvListElems, p \in BOOLEAN : Emit("SHAPE", [class |-> "envEmptyList", elem |-> e, ptr |-> p])
         /\ \A s \in EnvKeyShapes : Emit("SHAPE", [class |-> "envKey", shape |-> s])
+        /\ Emit("HISTORY", [pattern |-> HistoryPattern])
         /\ \A fk \in FieldKinds, sf \in EnvSuffixes, ex \in BOOLEAN :
                Emit("SHAPE", [class |-> "envSuffix", kind |-> fk, suffix |-> sf, withExact |-> ex])
 =============================================================================
